@@ -346,17 +346,59 @@ pub fn check_parse_edit(seed: &RefPacket, edit: u8) -> Vec<Finding> {
 /// Records obtained through the library's other constructors (TXT from a string of any length,
 /// TXT from an attribute map, in-place edits), framed between a question and a trailing A record.
 pub fn check_constructed(kind: &str, n: usize) -> Vec<Finding> {
-    use simple_dns::rdata::{RData, A, TXT};
-    use simple_dns::{Name, Question, ResourceRecord, CLASS, QCLASS, QTYPE, TYPE};
+    use simple_dns::rdata::{RData, TXT};
+    use simple_dns::Name;
     let case = json!({"kind": "constructed", "ctor": kind, "n": n});
     let text: String = match kind {
         "txt-from-str" => (0..n).map(|i| (b'a' + (i % 23) as u8) as char).collect(),
         "txt-from-str-utf8" => (0..n).map(|i| if i % 5 == 2 { 'é' } else { 'x' }).collect(),
+        "txt-failed-add" => "y".repeat(256 + n * 13),
         _ => String::new(),
     };
     let r = guarded(|| -> Result<Vec<(String, String)>, String> {
-        let mut bad = Vec::new();
+        if kind == "svcb-replace" {
+            // the same SvcParamKey set twice (the second call replaces the first), every
+            // combination of setter and of first / second value size
+            use simple_dns::rdata::{HTTPS, SVCB};
+            use simple_dns::CharacterString;
+            let setter = n % 7;
+            let (first, second) = ((n / 7) % 3, (n / 21) % 3);
+            let https = (n / 63) % 2 == 1;
+            let mut s = SVCB::new(1, Name::new_unchecked("svc.example"));
+            s.set_port(8443);
+            for v in [first, second] {
+                let k = v + 1;
+                match setter {
+                    0 => s.set_mandatory((0..k as u16).map(|i| i + 1)).map_err(|e| format!("{:?}", e))?,
+                    1 => s.set_alpn((0..k).map(|i| CharacterString::new(["h2", "http/1.1", "h3"][i].as_bytes()).unwrap())).map_err(|e| format!("{:?}", e))?,
+                    2 => s.set_no_default_alpn(),
+                    3 => s.set_port(k as u16),
+                    4 => s.set_ipv4hint((0..k as u32).map(|i| 0x0a000001 + i)).map_err(|e| format!("{:?}", e))?,
+                    5 => s.set_ipv6hint((0..k as u128).map(|i| 1 + i)).map_err(|e| format!("{:?}", e))?,
+                    _ => s.set_param(7, vec![0x55u8; k * 5]).map_err(|e| format!("{:?}", e))?,
+                }
+            }
+            let rdata = if https { RData::HTTPS(HTTPS(s)) } else { RData::SVCB(s) };
+            return frame_check(rdata);
+        }
         let txt: TXT = match kind {
+            "txt-failed-add" => {
+                // a rejected add_string / with_string must leave the record as it was
+                let mut t = TXT::new();
+                for i in 0..(n % 5) {
+                    t.add_string(["k=v", "", "abc", "flag"][i % 4]).map_err(|e| format!("{:?}", e))?;
+                }
+                if t.add_string(text.as_str()).is_ok() {
+                    return Err(format!("add_string accepted {} bytes", text.len()));
+                }
+                t.add_string("after=1").map_err(|e| format!("{:?}", e))?;
+                if n % 2 == 1 {
+                    if t.add_string(text.as_str()).is_ok() {
+                        return Err("second over-long add_string accepted".to_string());
+                    }
+                }
+                t
+            }
             "txt-from-str" | "txt-from-str-utf8" => TXT::try_from(text.as_str()).map_err(|e| format!("TXT::try_from(&str) of {} bytes: {:?}", text.len(), e))?,
             "txt-from-map" => {
                 let mut m = std::collections::HashMap::new();
@@ -373,9 +415,15 @@ pub fn check_constructed(kind: &str, n: usize) -> Vec<Finding> {
                 t
             }
         };
+        frame_check(RData::TXT(txt))
+    });
+    fn frame_check(rdata: simple_dns::rdata::RData) -> Result<Vec<(String, String)>, String> {
+        use simple_dns::rdata::{RData, A};
+        use simple_dns::{Name, Question, ResourceRecord, CLASS, QCLASS, QTYPE, TYPE};
+        let mut bad = Vec::new();
         let mut p = Packet::new_reply(7);
         p.questions.push(Question::new(Name::new_unchecked("t.example.com"), QTYPE::TYPE(TYPE::TXT), QCLASS::CLASS(CLASS::IN), false));
-        p.answers.push(ResourceRecord::new(Name::new_unchecked("t.example.com"), CLASS::IN, 60, RData::TXT(txt)));
+        p.answers.push(ResourceRecord::new(Name::new_unchecked("t.example.com"), CLASS::IN, 60, rdata));
         p.additional_records.push(ResourceRecord::new(Name::new_unchecked("t.example.com"), CLASS::IN, 61, RData::A(A { address: 0x01020304 })));
         let plain = p.build_bytes_vec().map_err(|e| format!("build_bytes_vec: {:?}", e))?;
         let comp = p.build_bytes_vec_compressed().map_err(|e| format!("build_bytes_vec_compressed: {:?}", e))?;
@@ -404,7 +452,7 @@ pub fn check_constructed(kind: &str, n: usize) -> Vec<Finding> {
             }
         }
         Ok(bad)
-    });
+    }
     match r {
         Err(pn) => vec![finding(format!("C04|constructed|{}|{}", kind, pn.sig()), format!("{:?}", pn), case)],
         Ok(Err(e)) => {
@@ -475,6 +523,8 @@ pub fn run(ctx: &Ctx) {
     cons.extend((0..=700usize).map(|n| ("txt-from-str-utf8", n)));
     cons.extend((0..=60usize).map(|n| ("txt-from-map", n)));
     cons.extend((0..=80usize).map(|n| ("txt-strings", n)));
+    cons.extend((0..=40usize).map(|n| ("txt-failed-add", n)));
+    cons.extend((0..126usize).map(|n| ("svcb-replace", n)));
     let cchunks: Vec<&[(&str, usize)]> = cons.chunks(64).collect();
     par_shards(ctx, &cchunks, |cs, t: &mut Tally| {
         for (k, n) in cs.iter() {
@@ -488,7 +538,7 @@ pub fn run(ctx: &Ctx) {
             }
         }
     });
-    ctx.space("other constructors: TXT::try_from(&str) for every length 0..=1400 (ASCII) and 0..=700 characters (mixed UTF-8), TXT from attribute maps of 0..=60 entries, TXT of 0..=80 strings; framing of the TXT record and of the record after it", cons.len() as u64, "complete");
+    ctx.space("other constructors: TXT::try_from(&str) for every length 0..=1400 (ASCII) and 0..=700 characters (mixed UTF-8), TXT from attribute maps of 0..=60 entries, TXT of 0..=80 strings, TXT after rejected add_string calls (a failed mutator must leave the record as it was), SVCB/HTTPS with each typed setter called twice with every pair of value sizes; framing of the record and of the record after it", cons.len() as u64, "complete");
     ctx.sample(json!({"kind": "constructed", "ctor": "txt-from-str", "n": 509}));
     // non-initial states: parsed, then edited
     let edits: Vec<(usize, u8)> = (0..n1).flat_map(|i| (0u8..8).map(move |e| (i, e))).collect();
